@@ -1014,6 +1014,7 @@ class mulgrid(object):
                     col2 = column(colname2,
                                   node = [col.node[i[2]], col.node[i[3]], col.node[i[0]]],
                                   surface = col.surface)
+                    col2.num_layers = col.num_layers
                     # switch connections and neighbours from col to col2 as needed:
                     n3 = col.node[i[3]]
                     n3cols = [c for c in list(col.neighbour) if n3 in c.node]
